@@ -1035,6 +1035,7 @@ static struct {
 static void sb_flush(int t) {
   for (int i = 0; i < SB[t].n; i++) {
     sbe_t* e = &SB[t].e[i];
+    TR("[%lu] t%d store buffer drains %p <- %#lx\n", g_steps, t, (void*)e->a, (unsigned long)e->v);
     switch (e->sz) {
       case 1: __atomic_store_n((volatile uint8_t*)e->a, (uint8_t)e->v, __ATOMIC_SEQ_CST); break;
       case 2: __atomic_store_n((volatile uint16_t*)e->a, (uint16_t)e->v, __ATOMIC_SEQ_CST); break;
@@ -1095,8 +1096,15 @@ static void tso_commit_pending(void) {
   const int sz = PEND[me].sz;
   PEND[me].a = NULL;
   const uint64_t nv = rd_raw(a, sz);
-  if (nv == PEND[me].old) return; /* a store of the value already there is invisible either way */
+  if (nv == PEND[me].old) {
+    /* either a store of the value already there, or the store has not executed yet (for "*p = *q" the
+     * compiler calls the write hook, then the read hook, then loads and stores): it will go to memory
+     * directly, so everything older has to be there first */
+    if (SB[me].n) sb_flush(me);
+    return;
+  }
   wr_raw(a, PEND[me].old, sz);
+  TR("[%lu] t%d plain store %p <- %#lx delayed (memory keeps %#lx)\n", g_steps, me, (void*)a, (unsigned long)nv, (unsigned long)PEND[me].old);
   if (SB[me].n == 8) sb_flush(me);
   sbe_t* e = &SB[me].e[SB[me].n++];
   e->a = a;
